@@ -615,6 +615,36 @@ func (idx *Index) Update(key []byte, location types.Block) error {
 	return nil
 }
 
+// UpdateIf is like Update, but only updates the key if the index currently
+// refers to oldLocation for that key. It returns false, without changing
+// anything, if the key is not in the index or refers to a different location.
+func (idx *Index) UpdateIf(key []byte, oldLocation, location types.Block) (bool, error) {
+	bucket, err := idx.getBucketIndex(key)
+	if err != nil {
+		return false, err
+	}
+	indexKey := stripBucketPrefix(key, idx.sizeBits)
+
+	idx.bucketLk.Lock()
+	defer idx.bucketLk.Unlock()
+	records, err := idx.getRecordsFromBucket(bucket)
+	if err != nil {
+		return false, err
+	}
+	if records == nil {
+		return false, nil
+	}
+	r := records.GetRecord(indexKey)
+	if r == nil || r.Block != oldLocation {
+		return false, nil
+	}
+	newData := records.PutKeys([]KeyPositionPair{{r.Key, location}}, r.Pos, r.NextPos())
+
+	idx.outstandingWork += types.Work(len(newData) + BucketPrefixSize + sizePrefixSize)
+	idx.nextPool[bucket] = newData
+	return true, nil
+}
+
 // Remove removes a key from the index.
 func (idx *Index) Remove(key []byte) (bool, error) {
 	// Get record list and bucket index
